@@ -622,8 +622,9 @@ func (s *Session) Counters() {
 	_, _, _, inuse, ok := s.rootHeader()
 	fs := s.F.VerifSnapshot()
 	if ok {
-		if uint64(fs.Stats.DataAllocated) != inuse+1 {
-			s.fail("C12", "inuse", "queue header counts %d pages in use (+1 root), the file has %d data pages allocated", inuse, fs.Stats.DataAllocated)
+		// pages neither free nor internal (FileStats is not used: it drifts once the overflow area was used, outside C11/C12)
+		if live := uint64(len(engine.LiveFromSnap(fs))); live != inuse+1 {
+			s.fail("C12", "inuse", "queue header counts %d pages in use (+1 root), the file has %d data pages allocated", inuse, live)
 		}
 		payload := int(s.Cfg.PageSize) - 28
 		bytes := 0
